@@ -51,6 +51,8 @@ def call(cfg, variant=0):
 
     def mat(key):
         a = np.array([[float(v) for v in c[key]] for c in cols]).T  # (len, ncol)
+        if variant % 5 == 4:
+            a = a.astype("int64")       # count data: integer containers, same real numbers
         return a[:, 0] if ncol == 1 and variant % 2 == 0 else a
     yt, yp = mat("yt"), mat("yp")
     m = cfg["metric"]
